@@ -52,14 +52,16 @@ def k_field_alias(base, chk, meth, nargs, spec, extra=None):
         args = [objs[part[n]] for n in names]
         if extra is not None:
             args.append(extra(k))
-        (p,) = k.run(args, 1)
-        out = k.limbs(p, args[0])
-        ins = [K.fval(vals[part[n]]) for n in names[1:]]
-        k.goal(p, "congr", "value = %s of the original argument values (mod p)" % spec[0], K.fval(out), spec[1](k.dom, p, *ins, *( [args[-1]] if extra else [])), P)
-        others = set(o.obj for o in args[1:] if isinstance(o, X.Ptr) and o != args[0])
-        chk.fact("Element.%s[%s]: non-receiver arguments not written" % (meth, pname(part)), not any(w[0] == "w" and w[1] in others for w in p.log), [fname])
-        k.replay = None
-        k.settle()
+        for p in k.each(args):
+            out = k.limbs(p, args[0])
+            ins = [K.fval(vals[part[n]]) for n in names[1:]]
+            k.goal(p, "congr", "value = %s of the original argument values (mod p)" % spec[0], K.fval(out), spec[1](k.dom, p, *ins, *( [args[-1]] if extra else [])), P)
+            for j_, o_ in enumerate(out):
+                k.goal(p, "le", "out.l%d within the invariant" % j_, o_, K.B)
+            others = set(o.obj for o in args[1:] if isinstance(o, X.Ptr) and o != args[0])
+            chk.fact("%s: non-receiver arguments not written" % k.label, not any(w[0] == "w" and w[1] in others for w in p.log), [fname])
+        k.replay = lambda models, seed: alias_battery(seed)
+        k.settle("Element.%s aliasing" % meth)
 
 
 def k_chain_alias(base, chk, which):
